@@ -116,12 +116,18 @@ pub mod ignore {
 #[verifier::external_body]
 pub struct Gitignore { x: u8 }
 pub uninterp spec fn gi_ignored(gi: Gitignore, path: PathKey, is_dir: bool) -> bool;
+pub uninterp spec fn gi_parent(p: PathKey) -> PathKey;
 impl Gitignore {
     /// the directory the patterns are anchored at, and the files they were read from (in order)
     pub uninterp spec fn root(&self) -> PathKey;
     pub uninterp spec fn files(&self) -> Seq<PathKey>;
     #[verifier::external_body]
     pub fn path(&self) -> (r: &Path) ensures r.key() == self.root() { unimplemented!() }
+    /// the crate's convenience constructor: reads `path` and anchors the patterns at `path.parent()` (or "/") — a lexical parent, which is the
+    /// directory the file was joined to only up to normalisation (`dir/.`, `dir//`): nothing is assumed about `gi_parent` here
+    #[verifier::external_body]
+    pub fn new<P: PathLike>(path: P) -> (r: (Gitignore, Option<IgnoreError>))
+        ensures r.0.root() == gi_parent(path.pkey()), r.0.files() == seq![path.pkey()] { unimplemented!() }
     #[verifier::external_body]
     pub fn matched<P: PathLike>(&self, path: P, is_dir: bool) -> (r: Match) ensures r.ignores() == gi_ignored(*self, path.pkey(), is_dir) { unimplemented!() }
     #[verifier::external_body]
